@@ -46,7 +46,7 @@ func (c13Engine) Runs(tier string) int {
 	if tier == "thorough" {
 		return 4000
 	}
-	return 480
+	return 640
 }
 
 func randKey(r *core.RNG, size int) string { return hex.EncodeToString(r.Bytes(size)) }
@@ -157,7 +157,7 @@ func wclass(n int) string {
 
 func (e c13Engine) RunSeed(tier string, seed uint64, idx int) *core.Result {
 	rng := core.NewRNG(seed)
-	if rng.Chance(1, 5) {
+	if rng.Chance(2, 5) {
 		return c13CliRun(tier, seed, rng)
 	}
 	res := &core.Result{Seed: seed, Probes: map[string]int{"intact_total": 0, "intact_opened": 0}, Faults: map[string]int{}}
@@ -305,6 +305,61 @@ func (e c13Engine) RunSeed(tier string, seed uint64, idx int) *core.Result {
 			return res
 		}
 		r.probe("derived_crash_image_confirmed_by_real_kill")
+	}
+	// an I/O error on one operation of the protocol, and a kill at each of the
+	// operations that follow it: whatever the caller does about the error,
+	// the entry must not be openable with other bytes at any instant
+	if len(tgt.Body.bytes()) <= 70000 {
+		var targets []int
+		for i, o := range trace {
+			if o.Class == "cache" && (o.Kind == "write" || o.Kind == "create" || o.Kind == "seek" || o.Kind == "read" || o.Kind == "close") {
+				targets = append(targets, i)
+			}
+		}
+		pickT := map[int]bool{}
+		if len(targets) > 0 {
+			pickT[targets[0]] = true
+			pickT[targets[minInt(1, len(targets)-1)]] = true
+			for _, d := range []int{1, 2, 3, 4, 5, 6, 7} {
+				if len(targets)-d >= 0 {
+					pickT[targets[len(targets)-d]] = true
+				}
+			}
+			pickT[targets[rng.Intn(len(targets))]] = true
+		}
+		for _, at := range targets {
+			if !pickT[at] {
+				continue
+			}
+			kind := []string{"eio", "enospc", "eacces"}[rng.Intn(3)]
+			torn := 0
+			if trace[at].Kind == "write" && trace[at].Len > 0 {
+				torn = rng.Intn(trace[at].Len)
+			}
+			for kill := -1; kill <= 10; kill++ {
+				fs := []simos.Fault{{AtOp: at, Kind: kind, Torn: torn}}
+				if kill >= 0 {
+					fs = append(fs, simos.Fault{AtOp: at + 1 + kill, Kind: "kill"})
+				}
+				r.setFile(path, r.lastPre, r.lastPreOK)
+				_, _, pnc, p := r.putFaults(tgt, fs, nil)
+				r.countFaults(p)
+				fcopy := append([]simos.Fault(nil), fs...)
+				mk := func() *libScenario {
+					c := *sc
+					op := tgt
+					op.Faults = fcopy
+					c.Ops = append(append([]libOp(nil), base...), op)
+					return &c
+				}
+				if pnc != "" {
+					r.violate("panic", panicSite(pnc), firstLine(pnc), mk())
+					continue
+				}
+				opened := r.check(ti, mk)
+				r.key(fmt.Sprintf("ioerror|%s|%s|%s@%s|then-kill=%v|open=%v", sc.Hash, bclass, kind, trace[at].Kind, kill >= 0, opened))
+			}
+		}
 	}
 	// power loss: the process finished, un-synced pieces are lost
 	npl := 6
